@@ -102,6 +102,10 @@ class LayerInterp(VecInterp):
         st = w.setdefault("tls", {})
         if key not in st:
             payload = tls_keys(self.F).get(key, "")
+            if payload.startswith("core::cell::once::OnceCell<"):
+                st[key] = {"__oncecell": None}          # set once per thread, then read for ever
+                w.setdefault("tls_used", set()).add(key)
+                return st[key]
             m = re.fullmatch(r"core::cell::RefCell<alloc::vec::Vec<(u8|u32|u64|usize)>>", payload)
             if not m:
                 raise Undecidable("thread-local %s of type %s is not a modelled buffer" % (key, payload))
@@ -146,7 +150,42 @@ class LayerInterp(VecInterp):
             clo = self.operand(t["args"][1])
             if c.endswith("::with"):
                 return self.call_closure(clo, [("refval", st)])
+            if "__refcell" not in st:
+                raise Undecidable("with_borrow on a thread-local that is not a RefCell")
             return self.call_closure(clo, [("refval", st["__refcell"])])
+        if re.search(r"cell::once::OnceCell::<T>::(get_or_init|get)$", c):
+            cell = self.target(self.operand(t["args"][0]))
+            if not (isinstance(cell, dict) and "__oncecell" in cell):
+                raise Undecidable("OnceCell that is not a modelled thread-local")
+            if c.endswith("::get"):
+                from vecint import some, NONE
+                return some(("refval", cell["__oncecell"])) if cell["__oncecell"] is not None else dict(NONE)
+            if cell["__oncecell"] is None:
+                a1 = t["args"][1]
+                if a1.get("k") == "const" and "fn" in a1:
+                    f = self.F.funcs.get(a1["fn"])
+                    if f is None or f.crate not in ("ragc_core", "ragc_common"):
+                        raise Undecidable("initialiser %s" % a1["fn"])
+                    cp = {}
+                    gens = f.d.get("generics") or []
+                    m = re.search(r"::<([^<>]*)>$", a1.get("fn_disp", ""))
+                    toks = [x.strip() for x in m.group(1).split(",")] if m else []
+                    if len(toks) != len(gens):
+                        raise Undecidable("generic arguments of %s" % a1.get("fn_disp"))
+                    for name, g in zip(gens, toks):
+                        mm = re.fullmatch(r"(-?\d+)(_\w+)?", g)
+                        if mm:
+                            cp[name] = int(mm.group(1))
+                        elif g in self.cparams:
+                            cp[name] = self.cparams[g]
+                        else:
+                            raise Undecidable("generic argument %s is not bound" % g)
+                    sub = type(self)(self.F, self.max_steps, self.depth + 1, cp)
+                    sub.world = self.world
+                    cell["__oncecell"] = sub.call(f, [])
+                else:
+                    cell["__oncecell"] = self.call_closure(self.operand(a1), [])
+            return ("refval", cell["__oncecell"])
         if re.search(r"cell::RefCell::<T>::(borrow_mut|borrow)$", c):
             cell = self.target(self.operand(t["args"][0]))
             if not (isinstance(cell, dict) and "__refcell" in cell):
